@@ -141,9 +141,8 @@ class DocutilsRenderer(RendererProtocol):
         )
         self._heading_offset: int = 0
         # a mapping of heading levels to its currently associated node
-        self._level_to_section: dict[int, nodes.document | nodes.section] = {
-            0: self.document
-        }
+        # (or, within a nested parse that allows sections, to its temporary root node)
+        self._level_to_section: dict[int, nodes.Element] = {0: self.document}
         # mapping of section slug to (line, id, implicit_text)
         self._heading_slugs: dict[str, tuple[int | None, str, str]] = {}
 
@@ -323,6 +322,11 @@ class DocutilsRenderer(RendererProtocol):
                 current_level_to_section = dict(self._level_to_section.items())
                 current_root_node = self.md_env.get("temp_root_node", None)
                 self.md_env["temp_root_node"] = temp_root_node
+                # sections opened by the nested text are descendants of the root node,
+                # not of the surrounding document's open sections
+                self._level_to_section = {
+                    level: temp_root_node for level in self._level_to_section
+                }
             yield
             self._heading_offset = current_heading_offset
             if temp_root_node is not None:
